@@ -2,10 +2,10 @@ package rules
 
 import (
 	"fmt"
-	"go/ast"
 	"go/constant"
 	"go/token"
 	"go/types"
+	"sort"
 	"strings"
 
 	"golang.org/x/tools/go/ssa"
@@ -118,8 +118,38 @@ func checkSamCheckArgs(c *core.Ctx, rule string) {
 					bad = append(bad, fmt.Sprintf("undecided: %v", err))
 					continue
 				}
-				t := v.(eval.Tuple)
-				_, isErr := t[3].(eval.ErrVal)
+				// the results by kind, wherever they sit (separate results or fields of a window struct): one error, one
+				// boolean, two integers of which the smaller is the first kept base whenever the window is accepted
+				var ints []int64
+				var bools []bool
+				isErr := false
+				var walk func(x eval.Value)
+				walk = func(x eval.Value) {
+					switch y := unref(x).(type) {
+					case eval.Tuple:
+						for _, e := range y {
+							walk(e)
+						}
+					case *eval.StructVal:
+						var ks []string
+						for k := range y.F {
+							ks = append(ks, k)
+						}
+						sort.Strings(ks)
+						for _, k := range ks {
+							walk(y.F[k])
+						}
+					case eval.ErrVal:
+						isErr = true
+					case eval.Lin:
+						if y.IsConst() {
+							ints = append(ints, y.C)
+						}
+					case bool:
+						bools = append(bools, y)
+					}
+				}
+				walk(v)
 				ws, we := s, e
 				if s == -1 {
 					ws = 1
@@ -135,9 +165,12 @@ func checkSamCheckArgs(c *core.Ctx, rule string) {
 				if isErr {
 					continue
 				}
-				gs, _ := linConst(t[0])
-				ge, _ := linConst(t[1])
-				gt, _ := t[2].(bool)
+				if len(ints) != 2 || len(bools) != 1 {
+					bad = append(bad, fmt.Sprintf("refLen=%d start=%d end=%d: result %s is not a window (two integers and a flag)", refLen, s, e, eval.Show(v)))
+					continue
+				}
+				sort.Slice(ints, func(a, b int) bool { return ints[a] < ints[b] })
+				gs, ge, gt := ints[0], ints[1], bools[0]
 				if int(gs) != ws || int(ge) != we || gt != (s != -1 || e != -1) {
 					bad = append(bad, fmt.Sprintf("refLen=%d start=%d end=%d -> (%d,%d,trim=%v), want (%d,%d,trim=%v)", refLen, s, e, gs, ge, gt, ws, we, s != -1 || e != -1))
 				}
@@ -231,121 +264,14 @@ func C15(c *core.Ctx) {
 	c16Structural(c) // the file path (findReference + streaming reader) and the stdin path (streaming reader only) accept the same lines
 	checkSamCheckArgs(c, "R2")
 	checkGetFastaRecord(c, "R2")
-	c15Legacy(c)
 	c15TrimAlignment(c)
 	c15Wrap(c)
 	c15WindowFilter(c)
 	c15Stdin(c)
 }
 
-// ---- R1 legacy flags
-
-func c15Legacy(c *core.Ctx) {
-	p := c.Pkgs["cmd"]
-	if p == nil {
-		c.Und("R1/legacy-flags", token.NoPos, "UNRESOLVED package cmd")
-		return
-	}
-	var lit *ast.FuncLit
-	for _, file := range p.Syntax {
-		for _, d := range file.Decls {
-			gd, ok := d.(*ast.GenDecl)
-			if !ok {
-				continue
-			}
-			for _, sp := range gd.Specs {
-				vs, ok := sp.(*ast.ValueSpec)
-				if !ok || len(vs.Names) != 1 || vs.Names[0].Name != "toMultiAlignCmd" {
-					continue
-				}
-				ast.Inspect(vs, func(n ast.Node) bool {
-					if kv, ok := n.(*ast.KeyValueExpr); ok {
-						if id, ok := kv.Key.(*ast.Ident); ok && id.Name == "RunE" {
-							lit, _ = kv.Value.(*ast.FuncLit)
-						}
-					}
-					return true
-				})
-			}
-		}
-	}
-	if lit == nil {
-		c.Und("R1/legacy-flags", token.NoPos, "UNRESOLVED anchor: RunE of toMultiAlignCmd")
-		return
-	}
-	gv := func(name string) *types.Var {
-		v, _ := p.Types.Scope().Lookup(name).(*types.Var)
-		return v
-	}
-	names := []string{"toMultiAlignTrim", "toMultiAlignTrimStart", "toMultiAlignTrimEnd", "toMultiAlignStart", "toMultiAlignEnd"}
-	for _, n := range names {
-		if gv(n) == nil {
-			c.Und("R1/legacy-flags", lit.Pos(), "UNRESOLVED flag variable %s", n)
-			return
-		}
-	}
-	stop := func(s ast.Stmt) bool {
-		found := false
-		ast.Inspect(s, func(n ast.Node) bool {
-			if sel, ok := n.(*ast.SelectorExpr); ok && (sel.Sel.Name == "OpenIn" || sel.Sel.Name == "OpenOut") {
-				found = true
-			}
-			return !found
-		})
-		return found
-	}
-	var bad []string
-	n := 0
-	for _, trim := range []bool{false, true} {
-		for _, ts := range []int64{-1, 0, 3} {
-			for _, te := range []int64{-1, 5} {
-				for _, s := range []int64{-1, 2} {
-					for _, e := range []int64{-1, 6} {
-						n++
-						ev := newEval(c)
-						ev.SetGlobal(gv("toMultiAlignTrim"), trim)
-						ev.SetGlobal(gv("toMultiAlignTrimStart"), eval.K(ts))
-						ev.SetGlobal(gv("toMultiAlignTrimEnd"), eval.K(te))
-						ev.SetGlobal(gv("toMultiAlignStart"), eval.K(s))
-						ev.SetGlobal(gv("toMultiAlignEnd"), eval.K(e))
-						ret, returned, err := ev.RunLitUntil(lit, p, []eval.Value{eval.Opaque{Why: "cmd"}, eval.Opaque{Why: "args"}}, stop)
-						if err != nil {
-							bad = append(bad, "undecided: "+err.Error())
-							continue
-						}
-						legacy := trim || ts != -1 || te != -1
-						wantErr := legacy && (s != -1 || e != -1)
-						gotErr := false
-						if returned {
-							_, gotErr = ret.(eval.ErrVal)
-						}
-						if gotErr != wantErr {
-							bad = append(bad, fmt.Sprintf("trim=%v trimstart=%d trimend=%d start=%d end=%d: refused=%v, want %v", trim, ts, te, s, e, gotErr, wantErr))
-							continue
-						}
-						if wantErr {
-							continue
-						}
-						ws, we := s, e
-						if ts != -1 {
-							ws = ts + 1
-						}
-						if te != -1 {
-							we = te
-						}
-						gs, _ := linConst(ev.GetGlobal(gv("toMultiAlignStart")))
-						ge, _ := linConst(ev.GetGlobal(gv("toMultiAlignEnd")))
-						if gs != ws || ge != we {
-							bad = append(bad, fmt.Sprintf("trimstart=%d trimend=%d: start/end become %d/%d, want %d/%d (0-based half-open -> 1-based inclusive)", ts, te, gs, ge, ws, we))
-						}
-					}
-				}
-			}
-		}
-	}
-	c.Count("flag_combinations_evaluated", n)
-	c.Ob("R1/legacy-flags/reconciliation", len(bad) == 0, lit.Pos(), "%s", first(bad, 4))
-}
+// (R1, the reconciliation of the legacy --trim* flags with --start/--end, is decided by the command-layer scenarios of
+// `sam toMultiAlign`: the whole grid of the five flags against the values that must reach sam.ToMultiAlign.)
 
 // ---- toPairAlign cut
 
